@@ -399,6 +399,25 @@ def udp_part(ctx, Comms):
                     ctx.violation("udp.delivery", "udp/delivery", {"ret": r, "sink": list(got_sink), "wire": wire}, hist)
             except Exception as e:
                 ctx.violation("udp.delivery", "udp/raises/" + type(e).__name__, {"exc": repr(e)[:200]}, hist)
+            # (3) a time-out AFTER traffic delivers nothing either (no replay of the previous datagram), through getData and spin
+            if i in (0, 2, 4):
+                ctx.clause("udp.nodata")
+                del got_sink[:]
+                try:
+                    r2 = hub.getData("A") if i != 2 else None
+                    if i == 2:
+                        hub.spin(2)
+                    wire = []
+                    try:
+                        while True:
+                            wire.append(rcv.recvfrom(1024)[0].decode())
+                    except (socket.timeout, TimeoutError):
+                        pass
+                    if r2 is not None or got_sink or wire:
+                        ctx.violation("udp.nodata", "udp/timeout_after_traffic_delivers/" + ("spin" if i == 2 else "getData"),
+                                      {"ret": r2, "sink": list(got_sink), "wire": wire, "previous": msg}, hist)
+                except Exception as e:
+                    ctx.violation("udp.nodata", "udp/nodata_raises/" + type(e).__name__, {"exc": repr(e)[:200]}, hist)
         ctx.bump("udp", "ran")
     except OSError:
         ctx.bump("udp", "skipped_bind_failed")
